@@ -334,6 +334,42 @@ def _first_ifexp(st):
     return rec(st)
 
 
+class _GetDefault(ast.NodeTransformer):
+    """``S.get(K, [None])[0]`` is ``S[K][0] if K in S else None``."""
+    hit = False
+
+    def visit_Subscript(self, node):
+        self.generic_visit(node)
+        v = node.value
+        if isinstance(node.ctx, ast.Load) and isinstance(node.slice, ast.Constant) and \
+                node.slice.value == 0 and isinstance(v, ast.Call) and \
+                isinstance(v.func, ast.Attribute) and v.func.attr == 'get' and \
+                len(v.args) == 2 and not v.keywords and isinstance(v.args[1], ast.List) and \
+                len(v.args[1].elts) == 1 and isinstance(v.args[1].elts[0], ast.Constant) and \
+                v.args[1].elts[0].value is None and \
+                isinstance(v.func.value, (ast.Name, ast.Attribute)):
+            s_, k_ = v.func.value, v.args[0]
+            new = ast.IfExp(
+                test=ast.Compare(left=k_, ops=[ast.In()], comparators=[s_]),
+                body=ast.Subscript(ast.Subscript(s_, k_, ast.Load()), ast.Constant(0),
+                                   ast.Load()),
+                orelse=ast.Constant(None))
+            ast.copy_location(new, node)
+            ast.fix_missing_locations(new)
+            self.hit = True
+            return new
+        return node
+
+
+def _expand_get_default(st):
+    if not any(isinstance(n, ast.Attribute) and n.attr == 'get' for n in ast.walk(st)):
+        return st
+    import copy
+    t = _GetDefault()
+    st2 = t.visit(copy.deepcopy(st))
+    return st2 if t.hit else st
+
+
 class _Replace(ast.NodeTransformer):
     def __init__(self, old, new):
         self.old = old
@@ -697,6 +733,7 @@ class Builder:
         if isinstance(st, (ast.Assign, ast.AugAssign, ast.AnnAssign, ast.Return, ast.Expr,
                            ast.Raise)) and not _is_logger_call_stmt(st) and \
                 not (isinstance(st, ast.Assign) and self._log_only_stmt(st)):
+            st = _expand_get_default(st)
             ie = _first_ifexp(st)
             if ie is not None:
                 # ``x = a if c else b`` is the statement ``if c: x = a else: x = b``
